@@ -80,6 +80,21 @@ def main(argv):
                 run.hist("model_status", str(mo2))
                 continue
             mo, mrust = mo2[0::2], mo2[1::2]
+            # hypotheses of theorems encode_ideal_eq_ref / encode_rust_eq_ref on this layout, and the theorem's
+            # statement itself evaluated on this run's values: reference mode ok bs  =>  Ref.encode = bs
+            hyp = co.model(i, T, [{"k": "len", "v": {}}])
+            refwf = bool(isinstance(hyp, list) and hyp[0].get("refwf"))
+            nomod = bool(isinstance(hyp, list) and hyp[0].get("nomod"))
+            run.hist("theorem_hypotheses", "refWfBody:%s noModBody:%s" % (refwf, nomod))
+            idl = co.mdl.ask({"op": "wire", "type": T, "mode": "ideal", "cases": [{"k": "enc", "v": v} for v, _ in vals]}, timeout=300)
+            if refwf and idl and idl.get("status") == "ok":
+                for (v, _), ref, mi, mr in zip(vals, mo, idl["out"], mrust):
+                    if mi.get("r") == "ok" and not (ref.get("r") == "ok" and ref.get("hex") == mi.get("hex")):
+                        run.violation("corr", "theorem encode_ideal_eq_ref contradicted by evaluation on %s (model bug)" % T,
+                                      {"pdl": d["text"], "type": T, "value": v, "corr": "thm:encode_ideal_eq_ref"}, found_input=False)
+                    if nomod and mi.get("r") == "ok" and not (mr.get("r") == "ok" and mr.get("hex") == mi.get("hex")):
+                        run.violation("corr", "theorem encode_rust_eq_ref contradicted by evaluation on %s (model bug)" % T,
+                                      {"pdl": d["text"], "type": T, "value": v, "corr": "thm:encode_rust_eq_ref"}, found_input=False)
             for (v, _), ref, mr in zip(vals, mo, mrust):
                 r = wc.impl(i, T, "enc", v)
                 run.case((d["text"], T, W.canon(v)))
